@@ -572,3 +572,23 @@ def check_write_permission(ctx, cfg, rule):
     got = {b["key"]: len(mutprov.analyse(b)[1]) for b in fdb.bodies if b["key"] in ("halves_through_shared", "halves_through_mut")}
     ok = got.get("halves_through_shared", 0) >= 2 and got.get("halves_through_mut", -1) == 0
     ctx.ob(rule, "write-permission fixture (%s)" % cfg, ok, "findings on the fixture: through a shared reborrow -> %s (required: >= 2), through as_mut_ptr -> %s (required: 0)" % (got.get("halves_through_shared"), got.get("halves_through_mut")), cfg=cfg)
+
+
+def pipe_max(a, t):
+    """An upper bound (Poly) on the number of items an iterator pipeline term yields, or None when nothing is known: like pipe_len, but a zip is
+    bounded by whichever side is known and `take(n)` by n."""
+    if not isinstance(t, tuple):
+        return None
+    ex = pipe_len(a, t)
+    if ex is not None:
+        return ex
+    if len(t) >= 4 and t[0] == "V" and t[1] == "iter":
+        k = t[2]
+        if k in ("map", "enumerate", "rev", "by_ref", "copied", "cloned", "filter", "skip", "step_by", "peekable", "fuse", "skip_while", "take_while", "inspect"):
+            return pipe_max(a, t[3])
+        if k == "zip" and len(t) == 5:
+            x, y = pipe_max(a, t[3]), pipe_max(a, t[4])
+            return x if x is not None else y
+        if k == "take" and len(t) == 5 and t[4][0] == "I":
+            return t[4][1]
+    return None
